@@ -112,9 +112,13 @@ let run_meter args = match args with
 (* specification side (Mp4/Spec.v): the top-level tiling of the input *)
 let run_tiles args = match args with
   | [_rd; _mx; cum; len; exts] ->
-    let inp = input_of_exts (cn_of_string len) (parse_exts exts) in
+    let exts = parse_exts exts in
+    let total = List.fold_left (fun a (_, l) -> a + List.length l) 0 exts in
+    let inp = input_of_exts (cn_of_string len) exts in
     let cumo = (if cum = "-" then None else Some (cn_of_string cum)) in
-    (match tiling cumo inp with
+    (* Spec.tile with an explicit fuel (every box that is present has at least 8 bytes present); Spec.tiling's own fuel
+       ilen/8 is a unary number and cannot be built for multi-GiB sparse streams *)
+    (match tile (nat_of_int (total / 8 + 4)) cumo inp N0 with
      | None -> "tiling=none"
      | Some bs -> Printf.sprintf "tiling=%d %s" (List.length bs)
                     (if bs = [] then "-" else String.concat "," (List.map (fun b ->
